@@ -71,6 +71,9 @@ def gen_prog(rng, nvars, nops, queries=True, cfg="a1v1", raw_node=False):
             lines.append("%s %d %d" % (rng.pick(BINOPS), reg(), reg())); nregs += 1
         elif k < 88:
             lines.append("restrict %d %d %d" % (reg(), rng.below(nvars), rng.below(2))); nregs += 1
+        elif k < 90:
+            # export and re-import the store in place (serde + fix_import, or the plain node list)
+            lines.append("q reimport %s" % rng.pick(["json", "json", "nodes", "live"])); nq += 1
         elif queries:
             q = rng.below(8)
             a = reg()
@@ -141,6 +144,8 @@ def gen_prog_sparse(rng, nvars, queries=True, cfg="a1v1"):
         tops.append(emit("or %d %d" % (x, y)))
     if len(tops) > 1:
         tops.append(emit("%s %d %d" % (rng.pick(BINOPS), tops[0], tops[1])))
+    if rng.chance(1, 2):
+        emit("q reimport %s" % rng.pick(["json", "json", "nodes", "live"]))
     for t in tops:
         if queries:
             emit("q deps %d" % t)
@@ -236,7 +241,31 @@ def gen_adf(rng, nmax=8, depth=4, style=0, layout=None, degenerate=True, repeat_
     n = 1 + rng.below(nmax)
     names = gen_names(rng, n, style)
     conds = []
-    mode = rng.below(10)
+    mode = rng.below(11)
+    if mode == 10 and n >= 4:
+        # sparse shapes: some statements stay undecided (self-support), some are decided constants or decided by one
+        # propagation step, the rest choose between small terms over the others through an UNDECIDED selector declared
+        # early (deep restrictions of multiplexer-shaped diagrams decide them)
+        k_u = 1 + rng.below(2)
+        k_c = 1 + rng.below(max(1, n - k_u - 1))
+        und, dec, rest = names[:k_u], names[k_u:k_u + k_c], names[k_u + k_c:]
+        if rng.chance(1, 2):
+            und, dec = list(und), list(dec)
+        for nm in und:
+            conds.append((nm, rng.pick([nm, "neg(%s)" % nm])))
+        for j, nm in enumerate(dec):
+            conds.append((nm, rng.pick(["c(v)", "c(f)"]) if j == 0 or rng.chance(2, 3) else rng.pick([dec[j - 1], "neg(%s)" % dec[j - 1]])))
+        for nm in rest:
+            pool = [x for x in names if x != nm]
+            sel = rng.pick(und)
+            def term():
+                vs = rng.shuffle([x for x in pool if x != sel])[: 1 + rng.below(3)]
+                t = vs[0] if rng.chance(2, 3) else "neg(%s)" % vs[0]
+                for v in vs[1:]:
+                    t = "%s(%s,%s)" % (rng.pick(["and", "or", "and"]), t, v if rng.chance(2, 3) else "neg(%s)" % v)
+                return t
+            conds.append((nm, "or(and(%s,%s),and(neg(%s),%s))" % (sel, term(), sel, term())))
+        return render_adf(rng, names, conds, layout), n
     for i, nm in enumerate(names):
         if degenerate and mode == 0 and rng.chance(1, 3):
             continue  # statement without ac
